@@ -1,2 +1,3 @@
-/- C14 — the reader builds the declared system: component theorems are imported from C17 / C12 when available. -/
+/- C14 — the reader builds the declared system: theorems about the reader model (C14Reader) and the component theorems of C17. -/
 import DsdVerif.Props.C17
+import DsdVerif.Props.C14Reader
